@@ -124,7 +124,7 @@ def main():
                       kind_free_text="repository-specific static analyzer over go/types + go/ssa: typestate/pairing, must-precede, guard extraction, value-origin flow, call-graph reachability, exhaustiveness; mutation self-test in the thorough tier")],
         checks=checks,
         not_applicable=na,
-        notes="All claims are level 'other': each check decides structural necessary conditions of its property from /repo's current source on every run and reports a specific construct. Genuine defects found are listed in /verif/known_findings.txt (fixed: entries have a 'fix:' commit in /repo; known: entries print KNOWN-FINDING).",
+        notes="All claims are level 'other': each check decides structural necessary conditions of its property from /repo's current source on every run and reports a specific construct. Genuine defects found are listed in /verif/known_findings.txt (fixed: entries have a 'fix:' commit in /repo; known: entries print KNOWN-FINDING; there are none at present). The thorough tier adds: the same rules on linux/386, windows/amd64 and darwin/amd64 loads of the current tree, a CHA call-graph cross-check, and a self-test that applies the property's catalogued breaking edits (/verif/mutants) and confirmed seeded regressions (/verif/seeded) to the current tree and re-analyses them (SELFTEST-MISS lines report a checker defect, never a property violation). No not_applicable entries: every property is claimed only for the structural clauses named in its level text; the behavioural remainder (model equality, crash images, schedules, laws over all byte strings) is stated there and in DESIGN.md section 9.3 as not decided.",
     )
     json.dump(m, open(os.path.join(VERIF, "MANIFEST.json"), "w"), indent=1)
     print("checks:", len(checks), "not_applicable:", len(na))
